@@ -38,6 +38,9 @@ KNOWN = os.path.join(VERIF, "known_findings.json")
 
 
 def load_known():
+    if os.environ.get("VERIF_NO_KNOWN"):
+        # development aid: report recorded findings as plain violations (used to validate a candidate repair)
+        return {"findings": [], "fixed": []}
     try:
         with open(KNOWN) as f:
             return json.load(f)
